@@ -56,6 +56,19 @@ class MemFS:
         return out
 
     def open(self, path, mode="r", *a, **k):
+        if "a" in mode:
+            # append: creates the file when missing, keeps what is there
+            r = self.point("open-w", path)
+            if r == "fail":
+                raise OSError("open for appending failed")
+            if path not in self.files:
+                self.files[path] = b""
+                self.history.append((path, b""))
+            if r == "crash-after":
+                self.do_crash()
+            f = MemFile(self, path, "w", text="b" not in mode)
+            f.buf = self.files[path]
+            return f
         if "w" in mode:
             r = self.point("open-w", path)
             if r == "fail":
@@ -125,6 +138,29 @@ class MemFile:
                 self.fs.do_crash()
 
 
+class FakeShutil:
+    """stand-in for ``shutil`` should the code under test start using it on the PIN file"""
+
+    def __init__(self, fs):
+        self.fs = fs
+
+    def move(self, src, dst):
+        if src not in self.fs.files:
+            raise FileNotFoundError(src)
+        self.fs.files[dst] = self.fs.files.pop(src)
+        self.fs.history.append((src, None))
+        return dst
+
+    def copy(self, src, dst):
+        if src not in self.fs.files:
+            raise FileNotFoundError(src)
+        self.fs.files[dst] = self.fs.files[src]
+        return dst
+
+    copyfile = copy
+    copy2 = copy
+
+
 class FakeOsPath:
     def __init__(self, fs):
         self.fs = fs
@@ -132,10 +168,30 @@ class FakeOsPath:
     def isfile(self, path):
         return self.fs.isfile(path)
 
+    def exists(self, path):
+        return path in self.fs.files
+
 
 class FakeOs:
     """stand-in for the ``os`` name inside ledger.pin"""
 
     def __init__(self, fs, environ=None):
+        self.fs = fs
         self.path = FakeOsPath(fs)
         self.environ = environ if environ is not None else {}
+
+    def remove(self, path):
+        if path not in self.fs.files:
+            raise FileNotFoundError(path)
+        del self.fs.files[path]
+        self.fs.history.append((path, None))
+
+    unlink = remove
+
+    def rename(self, src, dst):
+        if src not in self.fs.files:
+            raise FileNotFoundError(src)
+        self.fs.files[dst] = self.fs.files.pop(src)
+        self.fs.history.append((src, None))
+
+    replace = rename
